@@ -25,7 +25,7 @@ CHECKS = {
   note="panics inside Receive itself are recovered per connection in production and are only counted. Five genuine defects found and fixed (known_findings.txt): negative part index, nil LastCommit precommit, unbounded parts total, proposal block without header/data/commit, malformed peer bit arrays killing the process through the gossip goroutines."),
  "C17": dict(
   level="exploration", design="§5 C17", engine="refmodel",
-  technique="differential monitoring of the real ValidatorSet / updateStatus / fault-evidence code against a one-step big.Int reference, path-composition comparison, exact fairness windows",
+  technique="differential monitoring of the real ValidatorSet / updateStatus / fault-evidence code against a one-step big.Int reference, path-composition comparison, exact fairness windows; copies of sets reloaded from their stored encoding vs the running set; lane C17S: simulated nodes that skip rounds or hold commits of one block from different rounds (scripted split) must agree on proposers and on the record about the previous proposer",
   text="Random validator sets (incl. extreme powers): IncrementAccum(n) vs all compositions of n, single step vs saturating reference, exact weighted-round-robin fairness over windows, identity/copy/aliasing, add/update/remove histories vs a map model, ApplyBlock's validator update and VerifyFaultValEvidence call sites. Held on the sets explored.",
   note="library level plus ApplyBlock at height 1; round skipping inside enterNewRound is exercised by C01's simulator (same IncrementAccum). One genuine defect found and fixed (known_findings.txt)."),
  "C03": dict(
@@ -42,7 +42,7 @@ CHECKS = {
   note="crash = process death; power loss (rename not yet durable; WriteFileAtomic does not fsync the directory) is out of reach. SignVoteWithoutSave/SignData bypass the record by construction and are diagnostics only (no node code calls them on the consensus path)."),
  "C11": dict(
   level="exploration", design="§5 C11", engine="refmodel",
-  technique="type-directed round-trip monitoring over every registered type + hostile-input monitoring of every decoder entry point (panic capture, allocation bound calibrated on valid encodings, sacrificial process for fatal errors)",
+  technique="type-directed round-trip monitoring over every registered type + hostile-input monitoring of every decoder entry point (panic capture, allocation bound calibrated on valid encodings, sacrificial process for fatal errors); raw lane: ser.Split/SplitString/SplitList/CountValues against a reference header parser with forged boundary sizes and a watchdog for calls that do not return",
   text="98 target types (49 registered concrete types, 15 interfaces, 34 containers) enumerated from the real registry: generated values must decode equal and re-encode identically at every entry point (incl. the reactors' decodeMsg and the WAL decoder), map insertion order must not matter; "
        "tree-directed and byte-level hostile inputs must never panic, die or allocate beyond A*len+16MiB. Held on the values and inputs explored.",
   note="decoder leniency towards non-canonical input is counted, not judged (the property is about encodings produced by the encoder). Four genuine defects found and fixed (known_findings.txt)."),
@@ -60,15 +60,16 @@ CHECKS = {
  "C14": dict(
   level="fault_enumeration", design="§5 C14", engine="core",
   technique="damage enumeration over logs written through the real baseWAL/autofile group (every truncation offset, every single-byte corruption for small logs, crash images of rotated groups) with a record-sequence oracle and an independent frame parser; marker-search oracle",
-  text="Plans of 3-60 records of all six kinds with rotations (real RotateFile at plan-chosen ticks, with/without Flush) and restarts; plain-reader and real GroupReader lanes; SearchForEndHeight on intact, cut and corrupted groups. "
+  text="Plans of 3-60 records of all six kinds with rotations (real RotateFile at plan-chosen ticks, with/without Flush; in every sixth plan also right after chosen Group.Write calls of the encoder (hook VerifInterposeGroupWriter) and from a concurrent rotator goroutine; some layouts start past file index 999) and restarts; plain-reader and real GroupReader lanes; SearchForEndHeight on intact, cut and corrupted groups. "
        "Decoded messages must be a prefix of what was written, never invented; a marker is found iff completely written. Held on the logs and damages enumerated.",
   note="corruptions are sampled for logs > 4 KiB (all header bytes + 3 payload bytes per record). Two genuine defects found and fixed (known_findings.txt)."),
  "C18": dict(
   level="exploration", design="§5 C18", engine="core",
-  technique="unique-id FIFO/stream-equality monitoring of real SecretConnection/MConnection pairs over throttling pipes under the race detector; independent protocol-level handshake adversary (20 tamper classes)",
+  technique="unique-id FIFO/stream-equality monitoring of real SecretConnection/MConnection pairs over throttling pipes under the race detector; independent protocol-level handshake adversary (21 tamper classes, honest sessions also with key and auth frame in one transport read); lane C18S: the real p2p Switch with inbound loopback connections played by a harness peer (real handshake, generated node-info claims), oracle over the peer set and the (peer id, message) pairs delivered to a reactor",
   text="Stream lane: exact byte equality for write/read size menus around frame boundaries. MConnection lane: per-channel delivery must be whole, unaltered, duplicate-free, on the right channel and a linear extension of the Send order (logical clock), nothing lost before a fence. "
-       "Handshake lane: the harness plays the remote side itself; every tampering must be refused and the honest run must succeed with the right remote key. Held on the connections explored.",
-  note="only the compiled-in compress frame mode can be produced through the exported API; MITM relaying without channel binding is a protocol limit, not judged. One genuine defect found and fixed (known_findings.txt)."),
+       "Handshake lane: the harness plays the remote side itself; every tampering must be refused and the honest run must succeed with the right remote key. "
+       "Switch lane (C18S): every peer id registered in the switch, and every identity a reactor sees on a message, must be the id of the key proved on that connection; a peer presenting the key it proved must be admitted. Held on the connections explored.",
+  note="only the compiled-in compress frame mode can be produced through the exported API; MITM relaying without channel binding is a protocol limit, not judged. Four genuine defects found and fixed (known_findings.txt): reflected auth (two repairs), ephemeral-key over-read, node-info key not bound to the authenticated key."),
  "C19": dict(
   level="exploration", design="§5 C19", engine="refmodel",
   technique="differential monitoring of the real libs/db backends (memdb, goleveldb, bolt, badger, prefix views) against a reference sorted map after every operation; concurrent atomic-batch-visibility lane (C19R) under the race detector",
@@ -82,7 +83,7 @@ CHECKS = {
   note="five genuine defects fixed (three pool-recheck gaps that made a correct proposer's block fail or be rejected; CommitBlock publishing state outside its readers' locks; process-wide WASM module cache keyed by address only changed block results). Flat key-value mode and non-empty candidate lists are not covered here."),
  "C06": dict(
   level="exploration", design="§5 C06", engine="chainkit",
-  technique="conservation-ledger monitoring of real chains (sum over every leaf of the committed account trie + generator-side hidden-pool ledger, per-account reference ledger from receipts) and a spender-side tampering adversary (62 classes) at mempool admission and block validation",
+  technique="conservation-ledger monitoring of real chains (sum over every leaf of the committed account trie + generator-side hidden-pool ledger, per-account reference ledger from receipts) and a spender-side tampering adversary (63 classes) at mempool admission and block validation; shapes the rules could legitimately admit (two account inputs, transfers bidding above the network gas price) are judged by the supply after the block",
   text="Even cases: chains of 5-10 blocks with every transaction kind incl. purpose-built contracts (revert, out-of-gas, SELFDESTRUCT to others/itself, ISSUE) and confidential transfers (ring 1 and 2..11); after every block supply per asset, fee collector credit, hidden pool vs account side and every balance vs a reference ledger are checked on a proposer and a validator replica. "
        "Odd cases: valid confidential transactions are tampered as the spender could (inflated re-proved outputs, shifted commitments, fee variants, swapped proofs, 2^64 wraps, non-unit amounts) and must be rejected by AddTx and CheckBlock; controls must be accepted. Held on what was explored, modulo three known findings.",
   note="crypto stand-in: real Pedersen/MLSAG/ring-signature algebra and a sound 64-bit range check, not Monero bit-compatible. Known findings: ring-size-1 pseudo-outs unbound (2 keys, S6) and value sent to a contract self-destructed earlier in the block is burned."),
@@ -111,7 +112,7 @@ CHECKS = {
   note="one genuine defect fixed (shared Tokens map); two known findings in the flat key-value mode (pending updates ignored by reads/copies). Root differences with equal observables (S5b) are diagnostics."),
  "C10": dict(
   level="exploration", design="§5 C10", engine="refmodel",
-  technique="runtime differential monitoring: real trie executions vs content-map oracle; adversarial proof tampering",
+  technique="runtime differential monitoring: real trie executions vs content-map oracle; adversarial proof tampering; reference-count lane over the node cache (Reference/Dereference of chains of committed states with equal and reverting roots: referenced roots must read back their content)",
   text="Random histories (update/delete/get/commit/reopen, plain and secure tries, prefix-heavy keys) are executed on the real trie; "
        "after each history the canonical-root, lookup, iteration and proof oracles are evaluated against a content map, every proof is "
        "tampered node by node. Held on the executions listed in evidence, nothing more.",
